@@ -66,8 +66,13 @@ LineCases ==
      ls \in {[i \in DOMAIN s |-> IF d = 0 THEN s[i] ELSE RevS(s[i])] : s \in UNION {[1..k -> CLines] : k \in 1..2}, d \in {0, 1}},
      o \in Offsets}
 Grid3x3 == {P(x, y) : x \in 0..2, y \in 0..2}
+\* gaps[j] = 1: the MultiPoint holds an EMPTY member before point j (after the last point for j = k + 1). EMPTY members carry
+\* no position: the mean is over the points that are there.
+NoGaps(k) == [j \in 1..(k + 1) |-> 0]
 PointCases ==
-  {[kind |-> "points", pts |-> ps, off |-> o] : ps \in UNION {[1..k -> Grid3x3] : k \in 1..(IF Rich THEN 4 ELSE 3)}, o \in Offsets}
+  UNION {{[kind |-> "points", pts |-> ps, gaps |-> g, off |-> o] :
+            ps \in [1..k -> Grid3x3], g \in (IF k <= 2 THEN [1..(k + 1) -> {0, 1}] ELSE {NoGaps(k)}), o \in Offsets} :
+         k \in 1..(IF Rich THEN 4 ELSE 3)}
 Reduced(x) == x.kind # "poly" \/ Rich \/ Len(x.polys) = 1 \/ (x.off = P(0,0))
 
 VARIABLE c
